@@ -59,3 +59,32 @@ theorem length_sortBy {α} (lt : α → α → Bool) (xs : List α) : (sortBy lt
   simp [sortBy, length_foldl_insertSorted]
 
 end Carapace
+
+namespace Carapace
+
+theorem insertSorted_perm {α} (lt : α → α → Bool) (x : α) (xs : List α) :
+    (insertSorted lt x xs).Perm (x :: xs) := by
+  induction xs with
+  | nil => exact List.Perm.refl _
+  | cons y ys ih =>
+    simp only [insertSorted]
+    split
+    · exact List.Perm.refl _
+    · exact (List.Perm.cons y ih).trans (List.Perm.swap x y ys)
+
+theorem foldl_insertSorted_perm {α} (lt : α → α → Bool) (xs acc : List α) :
+    (xs.foldl (fun acc x => insertSorted lt x acc) acc).Perm (xs ++ acc) := by
+  induction xs generalizing acc with
+  | nil => exact List.Perm.refl _
+  | cons x xs ih =>
+    simp only [List.foldl_cons, List.cons_append]
+    refine (ih _).trans ?_
+    refine (List.perm_append_left_iff xs).mpr (insertSorted_perm lt x acc) |>.trans ?_
+    exact List.perm_middle
+
+/-- sorting rearranges and neither drops nor duplicates -/
+theorem sortBy_perm {α} (lt : α → α → Bool) (xs : List α) : (sortBy lt xs).Perm xs := by
+  have := foldl_insertSorted_perm lt xs []
+  simpa [sortBy] using this
+
+end Carapace
